@@ -449,3 +449,46 @@ def c15(tier, seed):
                            "ults_freed_by_other_kind_of_context", "stack_bytes_written_and_verified",
                            "live_pairs_checked_disjoint"]
     return c
+
+
+SCHED_HAMMER = ("POP_NONEMPTY_SEEN", "PUSH_BEFORE_LOCK", "YIELD_SAVED", "SCHED_STOP_AFTER_SIZE", "MAIN_SCHED_AFTER_RUN")
+JOIN_HAMMER = ("JOIN_AFTER_REQ", "GET_JOINER_BEFORE_REQ", "SUSPEND_BEFORE_BLOCKED", "SUSPEND_AFTER_BLOCKED",
+               "TERMINATE_BEFORE_STORE", "JOIN_BEFORE_FINAL_WAIT", "JOIN_FUTEX_AFTER_REQ", "RESUME_AFTER_PUSH")
+
+
+@prop("C01")
+def c01(tier, seed):
+    c = Check("C01", tier, seed)
+    q = tier == "quick"
+    c.rule = ("each case = one seeded random program: 1-5 streams, built-in pool kind x predefined scheduler or a user-defined "
+              "scheduler (random pool order, reversed batches, starvation of a pool, optional stealing), private or shared "
+              "pools, 0-2 stacked schedulers, 0-2 external creator threads, a forest (depth <= 4) of named/unnamed ULTs and "
+              "tasklets created via create/create_to/create_on_xstream/create_many that yield, create, join their children, "
+              "wait on eventuals set by siblings and end by return/ABT_self_exit/ABT_thread_exit; non-trivial = the program "
+              "ran >= 50 units incl. every unit kind; distinct = distinct (variant, delay profile, environment, "
+              "configuration signature)")
+    c.assumptions = ["programs follow the schedulability rules of DESIGN.md §6 H-c (otherwise loss would be the program's fault)",
+                     "a lost named unit shows as a reproduced hang of its joiner (watchdog), a lost unnamed unit as "
+                     "'lost-unit' after ABT_finalize"]
+    profiles = ["off", "uniform", hammer(*SCHED_HAMMER), hammer(*JOIN_HAMMER)]
+    envs = [{}, {"ABT_MEM_MAX_NUM_STACKS": "4", "ABT_MEM_MAX_NUM_DESCS": "4"}, {"ABT_SCHED_EVENT_FREQ": "1"}, {}]
+    for i, s in enumerate(seeds(seed, 8 if q else 72)):
+        args = ["--seed", s, "--mode", "forest", "--programs", 30 if q else 60, "--max-units", 600 if q else 2500,
+                "--delay", profiles[i % 4], "--watchdog", 60 if q else 400]
+        if i % 4 == 3:
+            args += ["--squeeze", 2]
+        c.add(Run("h_units", "mon", args, env=envs[(i // 2) % 4], weight=6, tag="forest%d" % i))
+    for i, s in enumerate(seeds(seed, 1 if q else 6, salt=1)):
+        c.add(Run("h_units", "asan", ["--seed", s, "--mode", "forest", "--programs", 6, "--max-units", 200,
+                                      "--delay", profiles[(i + 1) % 4], "--watchdog", 60], weight=6, tag="asan%d" % i))
+    for i, s in enumerate(seeds(seed, 1 if q else 6, salt=2)):
+        c.add(Run("h_units", "tsan", ["--seed", s, "--mode", "forest", "--programs", 4, "--max-units", 120,
+                                      "--delay", profiles[(i + 2) % 4], "--watchdog", 60], weight=6, tag="tsan%d" % i))
+    c.nontrivial = lambda r: (r.result or {}).get("counters", {}).get("units", 0) >= 50
+    c.required_points = ["POP_BECAME_EMPTY", "POP_LOCK_CONTENDED", "EXIT_JUMP_TO_JOINER", "EXIT_PUSH_JOINER",
+                         "EXIT_FUTEX_JOINER", "JOIN_YIELD_LOOP", "JOIN_SUSPEND"]
+    c.required_counters = ["named_ults", "unnamed_ults", "named_tasklets", "unnamed_tasklets", "via_create_to",
+                           "via_create_on_xstream", "via_create_many", "via_external_thread", "exit_by_self_exit",
+                           "exit_by_thread_exit", "eventual_waits", "stacked_schedulers", "programs_with_user_scheduler",
+                           "units_run_by_user_scheduler", "units_checked_at_xstream_join", "primary_scheduler_replaced"]
+    return c
